@@ -514,3 +514,36 @@ def rule_sibling_call_agreement(ctx, r, callee="gwf.core.get_spec_hashes", what=
         r.check(shape == common, f"{f.module.relpath}::{f.qual}::{callee.rsplit('.', 1)[1]}", f"opens {what} like its siblings: ({', '.join(k + '=' + v for k, v in shape)})",
                 f"{f.qual} opens {what} with ({', '.join(k + '=' + v for k, v in shape)}) while the other commands use ({', '.join(k + '=' + v for k, v in common)}): the commands "
                 "do not read and write the same store - what one records (touch, an accepted submission, clean) the other does not see", loc(n, f.module))
+
+
+def rule_log_filters(ctx, r, why):
+    """What gwf tells the user goes through logging (`Would submit X`, `Submitting target X`, `Cancelling target X`, warnings per target).  A logging.Filter defined in the
+    package must let two records through that share a message TEMPLATE and differ in their arguments - they are different messages."""
+    import ast
+    from ..symeval import PureInterp, Obj, Raised, Unsupported
+    idx = ctx.index
+    n = 0
+    for ci in idx.classes.values():
+        bases = [idx.canon(b, ci.module) or "" for b in ci.base_exprs if isinstance(b, (ast.Name, ast.Attribute))]
+        if not any(b.startswith("logging.") and b.endswith("Filter") for b in bases):
+            continue
+        flt = idx.method(ci, "filter")
+        if flt is None or flt.cls is not ci:
+            continue
+        n += 1
+        con = f"{ci.module.relpath}::{ci.name}.filter"
+        interp = PureInterp(ctx, hooks={"builtins.super": lambda *a: Obj("super"), "attr:__init__": lambda recv, *a, **k: None})
+        try:
+            inst = interp.apply(ci, [], {}, 0)
+
+            def rec(arg):
+                return Obj("record", name="gwf.scheduling", levelno=20, levelname="INFO", msg="Would submit %s", args=(arg,), pathname="scheduling.py", lineno=108, funcName="f",
+                           exc_info=None, getMessage=lambda arg=arg: "Would submit %s" % arg, message="Would submit %s" % arg)
+            verdicts = [bool(interp.call(flt, (rec(a_),), {}, self_obj=inst)) for a_ in ("Index", "Align", "Index")]
+        except (Raised, Unsupported) as exc:
+            r.info(con, f"not evaluated ({exc})")
+            continue
+        r.check(verdicts[0] and verdicts[1], con, "records with the same template and different arguments both pass",
+                f"{ci.name}.filter lets `Would submit Index` through and drops `Would submit Align` (verdicts {verdicts[:2]}): records are told apart by their template, not "
+                f"their text - {why}", flt.where)
+    r.ok("src/gwf::log-filters", f"{n} logging.Filter class(es) defined by the package", "src/gwf/cli.py:1")
